@@ -60,6 +60,7 @@ type Kernel struct {
 	Deadlock    bool
 	Exhausted   bool
 	free        bool // free-running mode after budget exhaustion
+	prioSalt    uint64
 	siteCount   map[string]int
 }
 
@@ -85,6 +86,7 @@ func NewKernel(seed uint64, policy SchedPolicy, maxSteps int) *Kernel {
 		rng:       rand.New(rand.NewPCG(seed, 0x6b65726e)),
 		policy:    policy,
 		MaxSteps:  maxSteps,
+		prioSalt:  seed*0x9e3779b97f4a7c15 + 0x7f4a7c15,
 	}
 	if policy == SchedPCT {
 		d := 1 + k.rng.IntN(3)
@@ -166,7 +168,12 @@ func (k *Kernel) admit(r *reg) {
 		k.ord[base]++
 		name = base + "#" + strconv.Itoa(k.ord[base])
 		k.names[r.goid] = name
-		k.prio[name] = k.rng.IntN(1 << 20)
+		// priorities are a function of (seed, stable name): registrations of
+		// tasks that start at the same instant arrive in arbitrary order, so
+		// nothing may be drawn from the PRNG at admission
+		hp := fnv.New64a()
+		_, _ = hp.Write([]byte(name))
+		k.prio[name] = int((hp.Sum64() ^ k.prioSalt) >> 44)
 		if managed {
 			k.live++
 		}
@@ -237,8 +244,9 @@ func (k *Kernel) Run() {
 		case SchedFIFO:
 			pick = names[0]
 		case SchedPCT:
-			best := -1
-			for _, n := range names {
+			pick = names[0]
+			best := k.prio[pick]
+			for _, n := range names[1:] {
 				if p := k.prio[n]; p > best {
 					best, pick = p, n
 				}
